@@ -20,6 +20,12 @@ CLAIMED = {
     note="Trusted: Rule IND for A-SINK, engine, solvers; target callbacks are arbitrary callees. Preconditions are verify_code's postcondition (C10). Bounded stand-in (labelled): scripted controller runs on small phases.",
     technique="contract-based deductive verification: ast->z3 VC generation, position-view invariants, recursion by contract with decreases clause",
     ref="6/C04"),
+
+ "C06": dict(cat="proof",
+    text="Every map_* of ASTIdentityMapper, ASTPreSimplifyMapper, ASTSimplifyMapper (incl. nested flat_Block), ASTPostSimplifyMapper and simplify_ast is symbolically executed from dag_ast.py over a recursive tree ADT; each is proved to return a tree whose executed-leaf trace (continuation-passing encoding, arbitrary valuation of condition atoms) equals the input's and to raise no exception, with `self.rec` entering by the same contract (structural induction). Trees of any size and depth.",
+    note="Trusted: pymbolic IdentityMapper dispatch (A-ID), the structural induction rule, deque/reduce models, engine + solvers. Termination of map_Block's queue loop only bounded. Bounded stand-in (labelled): exhaustive trees up to 5-6 nodes + random tail on the real simplify_ast under all valuations.",
+    technique="contract-based deductive verification: ast->z3 VC generation over a tree ADT, CPS trace semantics, loop invariants on the deque algorithm",
+    ref="6/C06"),
 }
 
 NOT_APPLICABLE = {
